@@ -119,6 +119,11 @@ pub struct Sim {
     /// per node: added (mod 2^16) to the sequenceId of every Announce it transmits, as if its ports had
     /// been announcing for that long already
     pub announce_seq_offset: Vec<u16>,
+    /// (follower, leader, ahead): the follower's Sync/Follow_Up sequence ids run in lockstep with
+    /// the leader's (two masters that started together), `ahead` ids in front of the leader's last
+    pub sync_seq_lockstep: Option<(usize, usize, u16)>,
+    pub last_sync_seq: Vec<Option<u16>>,
+    pub sync_seq_delta: Option<u16>,
     /// contexts of transmit timestamps whose report is still on its way (indexed by EvKind::TxTs.slot)
     held_tx_ctx: Vec<Option<statime::port::TimestampContext>>,
     /// hash of the order of processed events (distinct-interleaving evidence)
@@ -146,6 +151,9 @@ impl Sim {
             one_step: vec![],
             announce_steps: vec![],
             announce_seq_offset: vec![],
+            sync_seq_lockstep: None,
+            last_sync_seq: vec![],
+            sync_seq_delta: None,
             held_tx_ctx: vec![],
             order_hash: 0xcbf29ce484222325,
         }
@@ -237,6 +245,30 @@ impl Sim {
                     m.hdr.seq = m.hdr.seq.wrapping_add(off);
                     m.hdr.length = None;
                     data = m.encode();
+                }
+            }
+        }
+        if let Some((follower, leader, ahead)) = self.sync_seq_lockstep {
+            if let Ok(mut m) = Msg::decode(&data) {
+                let is_sync = m.hdr.msg_type == crate::refcodec::T_SYNC;
+                if is_sync || m.hdr.msg_type == crate::refcodec::T_FOLLOW_UP {
+                    if node == follower {
+                        if self.sync_seq_delta.is_none() && is_sync {
+                            if let Some(Some(l)) = self.last_sync_seq.get(leader).copied() {
+                                self.sync_seq_delta = Some(l.wrapping_add(ahead).wrapping_sub(m.hdr.seq));
+                            }
+                        }
+                        if let Some(d) = self.sync_seq_delta {
+                            m.hdr.seq = m.hdr.seq.wrapping_add(d);
+                            m.hdr.length = None;
+                            data = m.encode();
+                        }
+                    } else if is_sync {
+                        while self.last_sync_seq.len() <= node {
+                            self.last_sync_seq.push(None);
+                        }
+                        self.last_sync_seq[node] = Some(m.hdr.seq);
+                    }
                 }
             }
         }
